@@ -458,96 +458,134 @@ def run_async(coro_factory, *, sched: Sched | None):
 _taps_installed = False
 
 
+TAPS_OK: dict[str, bool] = {}
+
+
 def install_taps() -> None:
-    global _taps_installed
+    """Rebind the tap targets. Every tap is optional: when a target no longer exists (a refactor renamed
+    it) the tap is skipped, its counter stays zero and only the checks whose deciding monitor needs it
+    become inconclusive - the others run unaffected."""
+    global _taps_installed, SENTINEL
     if _taps_installed:
         return
-    import hypergraph.runners.async_.runner as ar
-    import hypergraph.runners.sync.runner as sr
-    from hypergraph.nodes.base import _EMIT_SENTINEL
+    _taps_installed = True
+    try:
+        from hypergraph.nodes.base import _EMIT_SENTINEL
 
-    global SENTINEL
-    SENTINEL = _EMIT_SENTINEL
+        SENTINEL = _EMIT_SENTINEL
+    except Exception:  # noqa: BLE001
+        SENTINEL = None
+    try:
+        import hypergraph.runners.async_.runner as ar
+        import hypergraph.runners.sync.runner as sr
+    except Exception:  # noqa: BLE001
+        TAPS_OK.update(ready=False, step=False, run=False)
+        return
 
     def wrap_ready(orig):
-        def get_ready_nodes(graph, state, *, active_nodes=None):
-            r = orig(graph, state, active_nodes=active_nodes)
-            TAP_COUNT["ready"] += 1
-            CUR.add(
-                "ready",
-                RUN.get(),
-                graph.name,
-                tuple(n.name for n in r),
-                dict(state.versions),
-                dict(state.routing_decisions),
-                frozenset(state.node_executions),
-            )
+        def get_ready_nodes(graph, state, *a, **kw):
+            r = orig(graph, state, *a, **kw)
+            try:
+                TAP_COUNT["ready"] += 1
+                CUR.add(
+                    "ready",
+                    RUN.get(),
+                    graph.name,
+                    tuple(n.name for n in r),
+                    dict(getattr(state, "versions", {})),
+                    dict(getattr(state, "routing_decisions", {})),
+                    frozenset(getattr(state, "node_executions", {})),
+                )
+            except Exception:  # noqa: BLE001 - a tap never disturbs the run
+                pass
             return r
 
         return get_ready_nodes
 
+    ok = True
     for mod in (sr, ar):
-        if not hasattr(mod, "get_ready_nodes"):
-            raise Inconclusive(f"tap target get_ready_nodes missing in {mod.__name__}")
-        mod.get_ready_nodes = wrap_ready(mod.get_ready_nodes)
+        if hasattr(mod, "get_ready_nodes"):
+            mod.get_ready_nodes = wrap_ready(mod.get_ready_nodes)
+        else:
+            ok = False
+    TAPS_OK["ready"] = ok
 
-    orig_ss = sr.run_superstep_sync
-
-    def run_superstep_sync(graph, state, ready_nodes, *a, **kw):
-        TAP_COUNT["step"] = TAP_COUNT.get("step", 0) + 1
-        CUR.add("step", RUN.get(), graph.name, tuple(n.name for n in ready_nodes))
-        return orig_ss(graph, state, ready_nodes, *a, **kw)
-
-    sr.run_superstep_sync = run_superstep_sync
-    orig_sa = ar.run_superstep_async
-
-    async def run_superstep_async(graph, state, ready_nodes, *a, **kw):
-        TAP_COUNT["step"] = TAP_COUNT.get("step", 0) + 1
-        CUR.add("step", RUN.get(), graph.name, tuple(n.name for n in ready_nodes))
-        return await orig_sa(graph, state, ready_nodes, *a, **kw)
-
-    ar.run_superstep_async = run_superstep_async
-
-    orig_sync = sr.SyncRunner._execute_graph_impl
-
-    def _execute_graph_impl(self, graph, values, max_iterations, **kw):
-        tok = next(_run_counter)
-        TAP_COUNT["run"] += 1
-        parent = RUN.get()
-        CUR.add("run_begin", tok, graph.name, parent, "sync")
-        reset = RUN.set(tok)
+    def note_step(graph, ready_nodes):
         try:
-            st = orig_sync(self, graph, values, max_iterations, **kw)
-            CUR.add("run_end", tok, "ok")
-            return st
-        except BaseException as e:  # noqa: BLE001
-            CUR.add("run_end", tok, type(e).__name__)
-            raise
-        finally:
-            RUN.reset(reset)
+            TAP_COUNT["step"] = TAP_COUNT.get("step", 0) + 1
+            CUR.add("step", RUN.get(), graph.name, tuple(n.name for n in ready_nodes))
+        except Exception:  # noqa: BLE001
+            pass
 
-    sr.SyncRunner._execute_graph_impl = _execute_graph_impl
+    ok = True
+    if hasattr(sr, "run_superstep_sync"):
+        orig_ss = sr.run_superstep_sync
 
-    orig_async = ar.AsyncRunner._execute_graph_impl_async
+        def run_superstep_sync(graph, state, ready_nodes, *a, **kw):
+            note_step(graph, ready_nodes)
+            return orig_ss(graph, state, ready_nodes, *a, **kw)
 
-    async def _execute_graph_impl_async(self, graph, values, max_iterations, max_concurrency, **kw):
-        tok = next(_run_counter)
-        TAP_COUNT["run"] += 1
-        parent = RUN.get()
-        CUR.add("run_begin", tok, graph.name, parent, "async")
-        reset = RUN.set(tok)
-        try:
-            st = await orig_async(self, graph, values, max_iterations, max_concurrency, **kw)
-            CUR.add("run_end", tok, "ok")
-            return st
-        except BaseException as e:  # noqa: BLE001
-            CUR.add("run_end", tok, type(e).__name__)
-            raise
-        finally:
-            RUN.reset(reset)
+        sr.run_superstep_sync = run_superstep_sync
+    else:
+        ok = False
+    if hasattr(ar, "run_superstep_async"):
+        orig_sa = ar.run_superstep_async
 
-    ar.AsyncRunner._execute_graph_impl_async = _execute_graph_impl_async
-    _taps_installed = True
+        async def run_superstep_async(graph, state, ready_nodes, *a, **kw):
+            note_step(graph, ready_nodes)
+            return await orig_sa(graph, state, ready_nodes, *a, **kw)
+
+        ar.run_superstep_async = run_superstep_async
+    else:
+        ok = False
+    TAPS_OK["step"] = ok
+
+    ok = True
+    if hasattr(getattr(sr, "SyncRunner", None), "_execute_graph_impl"):
+        orig_sync = sr.SyncRunner._execute_graph_impl
+
+        def _execute_graph_impl(self, graph, *a, **kw):
+            tok = next(_run_counter)
+            TAP_COUNT["run"] += 1
+            parent = RUN.get()
+            CUR.add("run_begin", tok, graph.name, parent, "sync")
+            reset = RUN.set(tok)
+            try:
+                st = orig_sync(self, graph, *a, **kw)
+                CUR.add("run_end", tok, "ok")
+                return st
+            except BaseException as e:  # noqa: BLE001
+                CUR.add("run_end", tok, type(e).__name__)
+                raise
+            finally:
+                RUN.reset(reset)
+
+        sr.SyncRunner._execute_graph_impl = _execute_graph_impl
+    else:
+        ok = False
+    if hasattr(getattr(ar, "AsyncRunner", None), "_execute_graph_impl_async"):
+        orig_async = ar.AsyncRunner._execute_graph_impl_async
+
+        async def _execute_graph_impl_async(self, graph, *a, **kw):
+            tok = next(_run_counter)
+            TAP_COUNT["run"] += 1
+            parent = RUN.get()
+            CUR.add("run_begin", tok, graph.name, parent, "async")
+            reset = RUN.set(tok)
+            try:
+                st = await orig_async(self, graph, *a, **kw)
+                CUR.add("run_end", tok, "ok")
+                return st
+            except BaseException as e:  # noqa: BLE001
+                CUR.add("run_end", tok, type(e).__name__)
+                raise
+            finally:
+                RUN.reset(reset)
+
+        ar.AsyncRunner._execute_graph_impl_async = _execute_graph_impl_async
+    else:
+        ok = False
+    TAPS_OK["run"] = ok
 
 
 # --------------------------------------------------------------------------
